@@ -136,7 +136,22 @@ program progMain
   error stop
 end program progMain
 """
-SOURCES = dict(V1=V1, V2=V2, V3=V3, V4=V4, V5=V5_08, I1=I1, I2=I2, I3=I3, I4=I4, I5=I5, IK=IK, X1=X1, X2=X2, X3=X3_08, X4=X4)
+# non-block DO loops ended by action statements whose classes the 2008 parser re-implements (valid under both)
+V6 = """program progMain
+  integer :: iCnt, kk, ioS
+  real :: aVec(3)
+  real, allocatable :: dynA(:)
+  do 10 iCnt = 1, 3
+  10 if (iCnt > 1) aVec(iCnt) = 1.0
+  do 20 kk = 1, 2
+  20 allocate(dynA(3), stat = ioS)
+  do 30 kk = 1, 2
+  30 open(unit = 12, file = 'term.dat')
+  do 40 kk = 1, 2
+  40 aVec(kk) = 0.0
+end program progMain
+"""
+SOURCES = dict(V1=V1, V2=V2, V3=V3, V4=V4, V5=V5_08, V6=V6, I1=I1, I2=I2, I3=I3, I4=I4, I5=I5, IK=IK, X1=X1, X2=X2, X3=X3_08, X4=X4)
 
 
 class _Sources(dict):
@@ -273,7 +288,7 @@ def histories(ctx):
     # standard-crossing stream: statements whose classes the 2008 parser overrides, in both spellings, as
     # history; one 2008-only construct (or the 2003 spellings) as the target, under either standard
     import props.c17 as c17
-    beta = [("create", "f2003"), ("create", "f2008"), ("parse", "V4"), ("parse", "V5")]
+    beta = [("create", "f2003"), ("create", "f2008"), ("parse", "V4"), ("parse", "V5"), ("parse", "V6")]
     hb = []
     for n in range(1, 4):
         hb += list(itertools.product(beta, repeat=n))
@@ -282,7 +297,7 @@ def histories(ctx):
     for i, h in enumerate(hb):
         for std in ("f2003", "f2008"):
             tg = singles if (ctx.quick and i % 2 == 0) or not ctx.quick else singles[i % 3::3]
-            for x in tg + ["V4", "V5"]:
+            for x in tg + ["V4", "V5", "V6"]:
                 cases.append((h + (("create", std),), std, x))
     # generated programs parsed under one standard, then another generated program under the other
     for k in range(ctx.n(60, 1500)):
